@@ -1,7 +1,7 @@
 #!/usr/bin/env python3
 import json, glob, os
 ROOT = os.path.dirname(os.path.dirname(os.path.abspath(__file__)))
-for d in sorted(glob.glob(os.path.join(ROOT, "seeded", "C*_m*"))):
+for d in sorted(glob.glob(os.path.join(ROOT, "seeded", "C*_*m*"))):
     p = os.path.join(d, "detect.json")
     name = os.path.basename(d)
     if not os.path.exists(p):
